@@ -40,11 +40,11 @@ Notation rstate := (rstate D).
 Notation mstate := (mstate D).
 
 (* running total: the declared lengths of the data frames of the message, summed at each frame header *)
-Lemma on_frame_begin_total cf (s : rstate) f : fb_is_ctl (f_op f) = false ->
+Lemma on_frame_begin_total cf (s : rstate) f : fb_is_ctl (f_op f) = false -> failed (cn D s) = false ->
   mtotal D (ms D (fst (on_frame_begin D cd cf s f))) =
     (if inside D (ms D s) then mtotal D (ms D s) else 0) + f_len f.
 Proof.
-  intros Hc. unfold on_frame_begin, on_message_frame_begin. rewrite Hc.
+  intros Hc Hnf. unfold on_frame_begin, on_message_frame_begin. rewrite Hc, !Hnf.
   destruct (inside D (ms D s)); cbn [mtotal m_mtotal m_fdata m_mdata m_mbin m_uon m_utf8 m_zon m_dec m_inside];
   repeat match goal with |- context [if ?b then _ else _] => destruct b end;
   repeat match goal with |- context [max_size_exceeded ?a ?b] => destruct (max_size_exceeded a b) end;
@@ -117,6 +117,7 @@ Lemma on_frame_begin_nolimit cf (s : rstate) f :
 Proof.
   unfold on_frame_begin. destruct (fb_is_ctl (f_op f)); [reflexivity|].
   change (pmc (no_limits cf)) with (pmc cf). change (utf8validate (no_limits cf)) with (utf8validate cf).
+  destruct (failed (cn D s)); [reflexivity|].
   match goal with |- context [on_message_frame_begin D cf ?c ?m ?l] =>
     pose proof (omfb_nolimit cf c m l) as H; destruct (on_message_frame_begin D cf c m l) as [[c1 m2] e] end.
   cbn [snd] in *. intros Q. rewrite (H Q). reflexivity.
